@@ -56,6 +56,49 @@ def rand_index(sr, rng, sym, dual=None, maxc=3, maxd=3, mind=1, p_single=0.12, m
     return sr.BlockIndex(cm, dual=(rng.random() < 0.5) if dual is None else dual)
 
 
+def identity_history(sr, rng, x, nsteps=None):
+    """The same tensor (same axes in the same order, same values) after a short history of
+    public operations that cancel: the object's internal state - block order, pending signs,
+    index objects, memoised keys - is whatever the library left behind."""
+    done = []
+    for _ in range(nsteps or rng.randint(1, 3)):
+        h = rng.choice(["conj-conj", "expand-squeeze", "scale-unscale", "add-zero", "transpose-back", "diag-ones", "copy", "transpose-back-inplace", "dagger-dagger"])
+        try:
+            if h == "conj-conj":
+                y = x.conj().conj()
+            elif h == "dagger-dagger":
+                y = x.dagger().dagger()
+            elif h == "expand-squeeze":
+                k = rng.randint(0, x.ndim)
+                y = x.expand_dims(k).squeeze(k)
+            elif h == "scale-unscale":
+                y = (x * 2.0) / 2.0
+            elif h == "add-zero":
+                y = x + (x * 0.0)
+            elif h in ("transpose-back", "transpose-back-inplace") and x.ndim >= 2:
+                p = rng.sample(range(x.ndim), x.ndim)
+                inv = tuple(p.index(i) for i in range(x.ndim))
+                if h == "transpose-back":
+                    y = x.transpose(tuple(p)).transpose(inv)
+                else:
+                    y = x.copy()
+                    y.transpose(tuple(p), inplace=True)
+                    y.transpose(inv, inplace=True)
+            elif h == "diag-ones" and x.ndim:
+                k = rng.randrange(x.ndim)
+                dt = np.asarray(next(iter(x.blocks.values()))).dtype if x.blocks else float
+                y = x.multiply_diagonal(sr.BlockVector({c: np.ones(d, dtype=dt) for c, d in x.indices[k].chargemap.items()}), k)
+            else:
+                y = x.copy()
+        except Exception:
+            continue
+        if y.ndim != x.ndim or len(y.blocks) != len(x.blocks):
+            continue
+        x = y
+        done.append(h)
+    return x, done
+
+
 def union_refs(sr, a, b, axa, axb):
     """Reference layouts for embedding two operands whose contracted legs list different
     charges: each pair is embedded in the union of the two tables. -> (ref_a, ref_b)"""
@@ -358,8 +401,13 @@ def contractible_pair(sr, rng, sym, fermionic, na=None, nb=None, ncon=None, maxn
     lb = kw.pop("label_b", None)
     if fermionic and la is None:
         la, lb = rng.sample(range(1, 1000), 2)
+    p_hist = kw.pop("p_hist", 0.0)
     a = make_array(sr, rng, sym, ia, fermionic=fermionic, values=values, kind=kind, label=la, **kw)
     b = make_array(sr, rng, sym, ib, fermionic=fermionic, values=values, kind=kind, label=lb, **kw)
+    if p_hist and rng.random() < p_hist:
+        a, _ = identity_history(sr, rng, a)
+    if p_hist and rng.random() < p_hist:
+        b, _ = identity_history(sr, rng, b)
     return a, b, axes_a, axes_b
 
 
